@@ -55,6 +55,7 @@ if use_cython:
 SYMBOL_ATTRIBUTES = {
     "ANCHORPOINT",
     "ANTIALIAS",
+    "BACKGROUNDCOLOR",
     "FILLED",
     "FONT",
     "IMAGE",
